@@ -60,7 +60,7 @@ func modelResources(s *rspec.Spec) *rspec.LinuxResources {
 	return s.Linux.Resources
 }
 
-func applyModel(s *rspec.Spec, a *Adj) (cdi []string) {
+func applyModel(s *rspec.Spec, a *Adj, inj *Inject, step int) (cdi []string) {
 	// --- annotations
 	if len(a.Annotations) > 0 {
 		keys := sortedKeys(a.Annotations)
@@ -129,6 +129,11 @@ func applyModel(s *rspec.Spec, a *Adj) (cdi []string) {
 	// --- CDI devices
 	if len(a.CDI) > 0 {
 		cdi = append([]string(nil), a.CDI...)
+		// what the harness's injector callback appends when it is called; the oracle does
+		// not depend on where among the other families this happens (injected names are
+		// disjoint from every alphabet; the injected hook is matched wherever it sits in
+		// the list of its kind)
+		inj.apply(s, step)
 	}
 
 	// --- devices
